@@ -33,6 +33,18 @@ theorem accP_congr_K {s : Sorted} {m : Nat} {K K' : List Nat} (h : ∀ y, y ∈ 
   unfold AccP
   simp only [h]
 
+theorem starNamed_false_iff {va vk : Option Param} {x : Nat} :
+    starNamed va vk x = false ↔ (∀ a, va = some a → a.name ≠ x) ∧ (∀ k, vk = some k → k.name ≠ x) := by
+  unfold starNamed
+  cases va <;> cases vk <;> simp
+
+theorem starNamed_mono {va va' vk : Option Param} {x : Nat} (h : va' = none ∨ va' = va)
+    (hs : starNamed va vk x = false) : starNamed va' vk x = false := by
+  rcases h with rfl | rfl
+  · rw [starNamed_false_iff] at hs ⊢
+    exact ⟨fun a ha => (nomatch ha), hs.2⟩
+  · exact hs
+
 /-- pok unchanged or `*args` gone -/
 def PokOrVa (st st' : KState) : Prop := st'.pok = st.pok ∨ st'.va = none
 
@@ -46,7 +58,8 @@ theorem loopP_inv {pos : List Param} {vk : Option Param} {o : Nat} (kw : List (N
     (∀ x ∈ kw.map (·.1), x ∉ names st'.pok) ∧ PokOrVa st st' ∧
     (∀ p ∈ st.kwo, p.name ∉ kw.map (·.1) → p ∈ st'.kwo) ∧
     ((kw.map (·.1)).Nodup →
-      ∀ kv ∈ kw, ∃ p ∈ st'.kwo, p.name = kv.1 ∧ p.kind = .ko ∧ p.dflt = some kv.2) := by
+      ∀ kv ∈ kw, starNamed st.va vk kv.1 = false →
+        ∃ p ∈ st'.kwo, p.name = kv.1 ∧ p.kind = .ko ∧ p.dflt = some kv.2) := by
   induction kw generalizing st with
   | nil =>
     simp only [partNames, List.map_nil, maskNames] at h
@@ -67,7 +80,8 @@ theorem loopP_inv {pos : List Param} {vk : Option Param} {o : Nat} (kw : List (N
         cases hk with
         | hitPok _ _ _ hc _ _ => exact hc
         | hitKwo _ hc _ _ _ => exact hc
-        | toVk hc _ _ _ => exact hc
+        | toVk hc _ _ _ _ => exact hc
+        | toStar hc _ _ _ _ => exact hc
       refine ⟨inv', ?_, ?_, ?_, hpre'.trans hpre1, ?_, ?_, ?_, ?_⟩
       · intro y hy
         simp only [List.map_cons, List.mem_cons] at hy
@@ -111,18 +125,19 @@ theorem loopP_inv {pos : List Param} {vk : Option Param} {o : Nat} (kw : List (N
             | hitPok before conv bp hc hpok hx =>
               exfalso; apply hxp; rw [hpok, ← hx]; simp
             | hitKwo _ _ _ _ _ => exact Or.inl h1
-            | toVk _ _ _ _ => exact Or.inl h1
+            | toVk _ _ _ _ _ => exact Or.inl h1
+            | toStar _ _ _ _ _ => exact Or.inl h1
         · exact Or.inr h1
       · intro p hp hne
         simp only [List.map_cons, List.mem_cons, not_or] at hne
         exact hkeep' p (hkeep1 p hp hne.1) hne.2
-      · intro hnd kv hkv
+      · intro hnd kv hkv hns
         simp only [List.map_cons, List.nodup_cons] at hnd
         simp only [List.mem_cons] at hkv
         rcases hkv with rfl | hkv
-        · obtain ⟨p, hp, h1, h2, h3⟩ := hb1
+        · obtain ⟨p, hp, h1, h2, h3⟩ := hb1 (fun hh => by rw [hns] at hh; cases hh.2.2)
           exact ⟨p, hkeep' p hp (by rw [h1]; exact hnd.1), h1, h2, h3⟩
-        · exact hb' hnd.2 kv hkv
+        · exact hb' hnd.2 kv hkv (starNamed_mono hva1 hns)
 
 
 theorem loopP_acc {pos : List Param} {vk : Option Param} {o : Nat} (kw : List (Nat × Nat))
@@ -180,7 +195,7 @@ theorem loopP_src {pos : List Param} {vk : Option Param} {o : Nat} (kw : List (N
     {st st' : KState} (inv : WInv_C19 pos vk st) (hnd : (kw.map (·.1)).Nodup)
     (h : maskNames vk st (partNames kw o) = .ok st') :
     ∀ kv ∈ kw, kv.1 ∉ names st.pok → kv.1 ∉ names st.kwo → (∀ a, st.va = some a → a.name ≠ kv.1) →
-      dget st'.src kv.1 = some [o] := by
+      (∀ k, vk = some k → k.name ≠ kv.1) → dget st'.src kv.1 = some [o] := by
   induction kw generalizing st with
   | nil => simp
   | cons a rest ih =>
@@ -194,7 +209,7 @@ theorem loopP_src {pos : List Param} {vk : Option Param} {o : Nat} (kw : List (N
       simp only at h
       simp only [List.map_cons, List.nodup_cons] at hnd
       obtain ⟨inv1, -, hn1, hva1, -⟩ := stepP_inv inv hk
-      intro kv hkv h1 h2 h3
+      intro kv hkv h1 h2 h3 h4
       have hva' : ∀ a, st1.va = some a → a.name ≠ kv.1 := by
         intro a ha
         rcases hva1 with e | e
@@ -203,7 +218,7 @@ theorem loopP_src {pos : List Param} {vk : Option Param} {o : Nat} (kw : List (N
       simp only [List.mem_cons] at hkv
       rcases hkv with rfl | hkv
       · rw [loopP_src_keep rest inv1 h _ hnd.1 hva']
-        exact (stepP_src hk).2 h1 h2
+        exact (stepP_src hk).2 h1 h2 (starNamed_false_iff.2 ⟨h3, h4⟩)
       · have hne : kv.1 ≠ x := by
           intro e; apply hnd.1; rw [← e]; exact List.mem_map.2 ⟨kv, hkv, rfl⟩
         apply ih inv1 hnd.2 h kv hkv
@@ -218,6 +233,7 @@ theorem loopP_src {pos : List Param} {vk : Option Param} {o : Nat} (kw : List (N
           · exact h2 c
           · exact hne c
         · exact hva'
+        · exact h4
 
 theorem Inv.toWInv {pos : List Param} {vk : Option Param} {st : KState} (inv : Inv pos vk st) :
     WInv_C19 pos vk st := by
